@@ -192,6 +192,9 @@ vnacal_parameter_t *_vnacal_alloc_parameter(const char *function, vnacal_t *vcp)
     if ((vpmrp = malloc(sizeof(vnacal_parameter_t))) == NULL) {
 	_vnacal_error(vcp, VNAERR_SYSTEM,
 		"malloc: %s", strerror(errno));
+	if (parameter < vprmcp->vprmc_first_free) {
+	    vprmcp->vprmc_first_free = parameter;
+	}
 	return NULL;
     }
     (void)memset((void *)vpmrp, 0, sizeof(*vpmrp));
